@@ -63,6 +63,19 @@ def impl_init():
     from pyp0f.net.signatures import HTTPPacketSignature
     from pyp0f.net.packet import Direction
 
+    from h11._receivebuffer import ReceiveBuffer
+    from pyp0f.fingerprint import fingerprint_http
+    from pyp0f.options import Options
+    from harness import implutil as U
+    http_db = U.load_db("[http:request]\nlabel = s:!:a:\nsys = Linux\nsig = *:Host:::\n[http:response]\nlabel = s:!:b:\nsys = Linux\nsig = *:Server:::\n")
+
+    def fp_accepts(buf):
+        try:
+            fingerprint_http(buf, options=Options(database=http_db))
+            return True
+        except PacketError:
+            return False
+
     def impl(c):
         raw = bytes.fromhex(c["payload"])
         k = len(raw) % 3               # every accepted buffer type; a bytearray / ReceiveBuffer must come back unconsumed
@@ -71,14 +84,23 @@ def impl_init():
         elif k == 1:
             buf = bytearray(raw)
         else:
-            from h11._receivebuffer import ReceiveBuffer
             buf = ReceiveBuffer()
             buf += raw
+        if k == 2:
+            buf2 = ReceiveBuffer()
+            buf2 += raw
+        else:
+            buf2 = bytearray(raw) if k == 1 else raw
+        fp_ok = fp_accepts(buf2)
         try:
             d, v, hs = read_payload(buf)
             if bytes(buf) != raw:
                 return {"exc": "the caller's buffer was consumed or altered"}
+            if not fp_ok:
+                return {"exc": "fingerprint_http rejects a payload (%s) that read_payload parses" % type(buf2).__name__}
         except PacketError:
+            if fp_ok:
+                return {"exc": "fingerprint_http accepts a payload read_payload rejects"}
             for cls in (HTTP, HTTPPacketSignature):
                 try:
                     cls.from_buffer(raw)
